@@ -81,7 +81,7 @@ let parse_note tab tok =
   let u = tab.(Char.code tok.[1] - 48) in
   let rest () = String.sub tok 3 (String.length tok - 3) in
   match tok.[0] with
-  | 'O' -> UOpen (u, cps_of (rest ()))
+  | 'O' | 'P' -> UOpen (u, cps_of (rest ()))      (* P: didOpen whose text is not the file's (the model has no disk) *)
   | 'C' -> UChange (u, parse_changes cps_of (rest ()))
   | 'S' -> let r = rest () in USave (u, if r = "nil" then None else Some (cps_of r))
   | 'X' -> UClose u
@@ -124,6 +124,73 @@ let history line =
     m ^ "\t" ^ s ^ "\t" ^ cl
   end
 let () = register "c02.history" history
+
+(* leg c02.analysed: the same histories over documents made of lines `NAME = 1`; every cell of an open document is
+   `<text hex>/<sorted names of its lines joined by +>`: what the server holds AND what it analyses (observed through the
+   outline of the real handler). Model: the analysed text IS the cached text (TextDocumentDidChange hands the cached
+   bytes to the analysis), so the names are those of the lines of the model's cache; spec: those of the client's text.
+   The line reader below is driver code (trusted): a line counts when it is `<identifier> = 1`. *)
+let line_names (bs : n list) : string =
+  let s = string_of_bytes bs in
+  let lines = String.split_on_char '\n' s in
+  let is_id c = (c >= 'a' && c <= 'z') || (c >= 'A' && c <= 'Z') || (c >= '0' && c <= '9') || c = '_' in
+  let names = List.filter_map (fun l ->
+      let l = if l <> "" && l.[String.length l - 1] = '\r' then String.sub l 0 (String.length l - 1) else l in
+      let n = String.length l in
+      if n > 4 && String.sub l (n - 4) 4 = " = 1" then begin
+        let id = String.sub l 0 (n - 4) in
+        let ok = ref (id <> "" && not (id.[0] >= '0' && id.[0] <= '9')) in
+        String.iter (fun c -> if not (is_id c) then ok := false) id;
+        if !ok then Some id else None end
+      else None) lines in
+  let names = List.sort_uniq compare names in
+  if names = [] then "-" else String.concat "+" names
+(* OPEN finding C02-open-text-not-analysed: didOpen caches the text it carries but does not analyse it; the analysis stays
+   the FILE's until the next didChange / didSave of the document. The Coq model has no disk; the driver keeps one
+   (what the harness writes: the text of note O, of a didSave, the cached text at a didSave without text; note P =
+   didOpen that leaves the disk alone) and predicts which text the outline is computed from. VERIF_C02_DIDOPEN=1 =
+   the repaired code (fixes/C02-didopen-analysed.diff): analysed text = cached text after every notification.
+   Class open_text_not_disk: the history contains a note P whose text is not the text of the file at that moment. *)
+let didopen_fixed = envb "VERIF_C02_DIDOPEN" false
+let analysed line =
+  let names, toks = split_table (split_ws line) in
+  let tab = Array.of_list (List.map mk_uri names) in
+  let ul = Array.to_list tab in
+  let notes = List.map (parse_note tab) toks in
+  if not (List.for_all (fun n -> List.for_all (List.for_all scalar) (note_texts n)) notes) then "BAD-CASE" else
+  let key u = uri_key ux prefix2 u in
+  let cellf an (c : kcache) u = match c (key u) with
+    | None -> "~"
+    | Some l -> hex_of_bytes l ^ "/" ^ (match an u with None -> "-" | Some a -> line_names a) in
+  let sstate (c : kcache) = String.concat "," (List.map (fun u -> match c u with None -> "~" | Some l -> hex_of_bytes l ^ "/" ^ line_names l) ul) in
+  let upd f u v = fun x -> if x = u then v else f x in
+  let states = utrace fx ux sx prefix2 kempty (List.map enc_unote notes) in
+  let rec walk toks notes states disk an cls acc = match toks, notes, states with
+    | tok :: tt, n :: nt, st :: stt ->
+      (match st with
+       | Ok c ->
+         let disk, an, cls = match n with
+           | UOpen (u, t) when tok.[0] = 'P' ->
+             let differs = (match disk u with Some d -> d <> utf8_of t | None -> true) in
+             disk, (if didopen_fixed then upd an u (Some (utf8_of t)) else upd an u (disk u)), cls || differs
+           | UOpen (u, t) -> upd disk u (Some (utf8_of t)), upd an u (Some (utf8_of t)), cls
+           | UChange (u, _) -> disk, upd an u (c (key u)), cls
+           | USave (u, Some t) -> upd disk u (Some (utf8_of t)), upd an u (Some (utf8_of t)), cls
+           | USave (u, None) -> upd disk u (c (key u)), upd an u (c (key u)), cls
+           | UClose _ -> disk, an, cls in
+         walk tt nt stt disk an cls (String.concat "," (List.map (cellf an c) ul) :: acc)
+       | Fault _ -> List.rev ("PANIC" :: acc), cls
+       | OutOfFuel -> List.rev ("FUEL" :: acc), cls)
+    | _ -> List.rev acc, cls in
+  let m, cls = walk toks notes states (fun _ -> None) (fun _ -> None) false [] in
+  let m = if m = [] then "-" else String.concat " " m in
+  if not (uconformant_from (fun u -> is_lua_key (key u)) kempty notes && inj_on true prefix2 ul) then m ^ "\t-\t-" else begin
+    let _, sp = List.fold_left (fun (cs, acc) n -> let cs' = uspec_step cs n in (cs', sstate (enc_kcache cs') :: acc))
+        (kempty, []) notes in
+    let s = if sp = [] then "-" else String.concat " " (List.rev sp) in
+    m ^ "\t" ^ s ^ "\t" ^ (if cls && not didopen_fixed then "open_text_not_disk" else "-")
+  end
+let () = register "c02.analysed" analysed
 let () = register "c02.history_bad" history
 
 (* case: the URI in hex.  model = VscodeURIToString; spec = the RFC 3986 reading (prefix removed, percent-decoded,
